@@ -263,7 +263,7 @@ def install():
 
     orig_read_token = gp.Parser.__dict__.get("read_token")
     if orig_read_token is not None:
-        def read_token(self, context, *a, **k):
+        def read_token(self, context, *args, **kwargs):
             env = ENV
             if env is not None:
                 ctx = cur_ctx()
@@ -272,7 +272,7 @@ def install():
                 k = env.kernel
                 if k is not None:
                     k.yield_point("tok")
-            return orig_read_token(self, context, *a, **k)
+            return orig_read_token(self, context, *args, **kwargs)
 
         gp.Parser.read_token = read_token
         GATE = "read_token"
@@ -297,7 +297,7 @@ def install():
 
     orig_match = gp.Parser.__dict__.get("match_token")
     if orig_match is not None:
-        def match_token(self, *a, **k):
+        def match_token(self, *a, **kw):
             env = ENV
             if env is not None:
                 try:
@@ -307,7 +307,7 @@ def install():
                         ctx.states.add(ctx.obs)
                 except Exception:  # noqa: BLE001 - observation must never influence a verdict
                     pass
-            return orig_match(self, *a, **k)
+            return orig_match(self, *a, **kw)
 
         gp.Parser.match_token = match_token
         info["probes"].append("match_token")
